@@ -42,6 +42,11 @@ CHECKS["C09"] = dict(engine="Roots", design="§4 C09",
     text="TLC checks NoReset, successor-validity and node-always-has-a-trusted-valid-chain over every schedule satisfying the two cadence bounds (and shows the stated bound is tight: bound+1 yields a counterexample); TLC-generated schedules run on the real rotation and authorisation code under virtual time, node chain windows taken from the parsed certificates, and the invariants are evaluated by TLC on the recorded trace.",
     note=ROOTS_NOTE + " TLS verification itself is not executed under virtual time.", technique="TLA+ spec + TLC exhaustive schedules with tightness witness + virtual-time replay + TLC trace validation")
 
+CHECKS["C18"] = dict(engine="Mux", design="§4 C18",
+    text="Mux.tla models the listener at the granularity of its critical sections (RWMutex with writer preference, rendezvous channel, both Once values, drain goroutine, context); TLC checks at-most-once return, never-both, accounted-when-settled, no send on closed channel, accept-after-close and (under weak fairness) that Close and blocked senders always return. Histories of the real MultiplexingListener (every distinct start order of small operation sets + seeded stress, race-detector build) are recorded from outside and judged by MuxTrace.tla: the C18 monitor decides violations; explanation of each history by the full model with inferred internal steps binds the model to the code.",
+    note="Trusted: Go runtime/race detector, TLC. No hooks: call/return/connection-close events only; internal steps are inferred. A violation is reported only if the same instance reproduces it in 300 re-runs.",
+    technique="TLA+ spec (Mux.tla) + TLC exhaustive safety and liveness + black-box trace validation with inferred internal steps (MuxTrace.tla) + Go race detector")
+
 PENDING = {}
 for i in range(1, 21):
     pid = "C%02d" % i
